@@ -147,6 +147,18 @@ async fn snapshot_dump(handler: &RaftDataHandler, scratch: &std::path::Path) -> 
             eprintln!("RAW {} key={:?} value={:?}", r.0, String::from_utf8_lossy(&r.1), String::from_utf8_lossy(&r.2));
         }
     }
+    // the records of the sequence component (T_SEQUENCE without the config actor's own SEQ_CONFIG) and of the two
+    // tables, readable: predicted by the Lean component models (`Model/Components.lean`)
+    let hex = |b: &Vec<u8>| b.iter().map(|x| format!("{:02x}", x)).collect::<String>();
+    let mut sq: Vec<String> = recs.iter().filter(|r| r.0 == "T_SEQUENCE" && r.1 != b"SEQ_CONFIG").map(|r| format!("{}={}", String::from_utf8_lossy(&r.1), hex(&r.2))).collect();
+    let mut tb: Vec<String> = recs.iter().filter(|r| r.0 == "T_USER" || r.0 == "T_CACHE").map(|r| format!("{}/{}={}", r.0, hex(&r.1), hex(&r.2))).collect();
+    sq.sort();
+    tb.sort();
+    if std::env::var("VERIF_RAW").is_ok() {
+        eprintln!("RAW sq {}", sq.join(";"));
+        eprintln!("RAW tb {}", tb.join(";"));
+    }
+    let comp = format!("sq={}#{} tb={}#{}", fnv(sq.join(";").as_bytes()), sq.len(), fnv(tb.join(";").as_bytes()), tb.len());
     // per tree: count and hash
     let mut out = vec![];
     let mut i = 0;
@@ -163,7 +175,7 @@ async fn snapshot_dump(handler: &RaftDataHandler, scratch: &std::path::Path) -> 
         out.push(format!("{}:{}:{}", recs[i].0, j - i, fnv(&all)));
         i = j;
     }
-    format!("snap={}", if out.is_empty() { "-".to_string() } else { out.join(",") })
+    format!("{} snap={}", comp, if out.is_empty() { "-".to_string() } else { out.join(",") })
 }
 
 async fn config_dump(config: &actix::Addr<ConfigActor>) -> String {
@@ -265,6 +277,12 @@ pub fn run(dir: &str) {
                                 let idx = next;
                                 next += 1;
                                 match store.apply_entry_to_state_machine(&idx, &req).await {
+                                    // the ids a sequence request hands out are part of what the node serves (C01, C19)
+                                    Ok(rnacos::raft::store::ClientResponse::SequenceResp { resp }) => match resp {
+                                        rnacos::sequence::model::SequenceRaftResult::NextId(v) => format!("ok:id{}", v),
+                                        rnacos::sequence::model::SequenceRaftResult::NextRange { start, len } => format!("ok:r{}+{}", start, len),
+                                        _ => "ok".to_string(),
+                                    },
                                     Ok(_) => "ok".to_string(),
                                     Err(_) => "applyerr".to_string(),
                                 }
